@@ -117,3 +117,59 @@ Proof.
   intro H. exists r. split; [exact (rrun_reach o g cs rinit r (rr_init o g) E)|].
   unfold overtaken in H. destruct (ph r); try discriminate. split; [reflexivity|]. apply Nat.ltb_lt. exact H.
 Qed.
+
+(* ---- Run returns: from every reachable state after the cancellation, every execution is finite
+   (bounded by the group's measure plus the two steps of Run itself) and cannot stop before Run has
+   returned: there is always a step to take until then *)
+Definition phase_rank (p : phase) : nat := match p with PGroup => 2 | PFinal => 1 | PReturned => 0 end.
+
+Inductive rpath : rst -> list rst -> Prop :=
+| rp_nil r : rpath r []
+| rp_cons r r' l : In r' (rsteps oT gT r) -> rpath r' l -> rpath r (r' :: l).
+
+Lemma rstep_ok r r' : rinv r -> gc (grp r) = true -> In r' (rsteps oT gT r) ->
+  rinv r' /\ gc (grp r') = true /\
+  measure (grp r') + phase_rank (ph r') < measure (grp r) + phase_rank (ph r).
+Proof.
+  intros Hi Hg Hin. split; [exact (rinv_step r r' Hi Hin)|].
+  unfold rsteps in Hin. apply in_app_or in Hin. destruct Hin as [Hin|Hin].
+  - apply in_lift in Hin. destruct Hin as (s & Hs & ->). cbn [grp ph].
+    destruct (step_ok (grp r) s (proj1 Hi) Hg Hs) as (_ & Hg' & Hlt). split; [exact Hg'|lia].
+  - destruct (ph r) eqn:E.
+    + cbn [oT o_wait o_after andb negb orb] in Hin. rewrite Hg in Hin. cbn [andb] in Hin.
+      destruct (all_done (grp r)); cbn [rwhen] in Hin; [|destruct Hin].
+      destruct Hin as [<-|[]]. cbn [grp ph phase_rank]. split; [exact Hg|lia].
+    + destruct Hin as [<-|[]]. cbn [grp ph phase_rank]. split; [exact Hg|lia].
+    + destruct Hin.
+Qed.
+
+Lemma rpath_bounded l : forall r, rpath r l -> rinv r -> gc (grp r) = true ->
+  length l <= measure (grp r) + phase_rank (ph r).
+Proof.
+  induction l as [|r' l IH]; intros r Hp Hi Hg; [cbn; lia|].
+  inversion Hp as [|? ? ? Hin Hp']; subst.
+  destruct (rstep_ok r r' Hi Hg Hin) as (Hi' & Hg' & Hlt).
+  specialize (IH r' Hp' Hi' Hg'). cbn [length]. lia.
+Qed.
+
+Lemma rprogress r : rinv r -> gc (grp r) = true -> ph r <> PReturned -> rsteps oT gT r <> [].
+Proof.
+  intros [Hi Hq] Hg Hp Hnil. unfold rsteps in Hnil. apply app_eq_nil in Hnil. destruct Hnil as [Hl Hr].
+  destruct (ph r) eqn:E.
+  - cbn [oT o_wait o_after andb negb orb] in Hr. rewrite Hg in Hr. cbn [andb] in Hr.
+    destruct (all_done (grp r)) eqn:Hd; cbn [rwhen] in Hr; [discriminate|].
+    (* some member has not returned: the group can move by itself *)
+    apply (progress (grp r) Hi Hg Hd). unfold lift in Hl. apply map_eq_nil in Hl.
+    unfold steps in Hl. apply app_eq_nil in Hl. exact (proj1 Hl).
+  - discriminate.
+  - apply Hp; reflexivity.
+Qed.
+
+Lemma run_returns r : rreach oT gT r -> gc (grp r) = true ->
+  (forall l, rpath r l -> length l <= measure (grp r) + 2) /\
+  (ph r <> PReturned -> rsteps oT gT r <> []).
+Proof.
+  intros Hr Hg. pose proof (rreach_inv r Hr) as Hi. split.
+  - intros l Hp. pose proof (rpath_bounded l r Hp Hi Hg). destruct (ph r); cbn [phase_rank] in *; lia.
+  - exact (rprogress r Hi Hg).
+Qed.
